@@ -69,3 +69,10 @@ reg("C15", "other",
     "can start is at byte 100 or the iterator re-synchronises. R1 fails on the pinned tree after seek(k) and after a previous "
     "iteration (three KNOWN-FINDING entries, defect D4: needs the reader to carry position state, not a small repair). Exact "
     "item sequences are not decided.")
+reg("C08", "other",
+    "flow rules and abstract fault enumeration on write_shape_and_record / ShapeRecordIterator::next; who-may-call on from_path",
+    "Structural necessary conditions: the complete writer writes the shape then the row and returns both errors; commit order "
+    "(no fallible call after the first irreversible commit without compensation) — violated on the pinned tree by the row write "
+    "after the committed shape (KNOWN-FINDING D8, not a small repair); paired iteration pulls exactly one shape and one row per "
+    "item and ends when either side ends; writer and reader derive sibling names with the same extension literals, the .dbf is "
+    "mandatory and the .shx optional for the readers. Nothing inside dbase is decided.")
